@@ -10,6 +10,7 @@ use arc_swap::{ArcSwap, Cache};
 use bincode::config;
 use boomphf::Mphf;
 use rayon::ThreadPool;
+use uuid::Uuid;
 
 use super::{
     ClosedIndex, ClosedPartitionIndex, EVENTS_LEN_SIZE, EVENTS_OFFSET_SIZE, MPHF_GAMMA,
@@ -18,6 +19,7 @@ use super::{
 use crate::bucket::segment::{BucketSegmentReader, EventRecord, Record};
 use crate::bucket::{BucketSegmentId, PartitionId};
 use crate::error::{PartitionIndexError, ThreadPoolError};
+use crate::id::get_uuid_flag;
 
 #[derive(Debug)]
 pub struct OpenPartitionIndex {
@@ -130,6 +132,11 @@ impl OpenPartitionIndex {
 
     /// Hydrates the index from a reader.
     pub fn hydrate(&mut self, reader: &mut BucketSegmentReader) -> Result<(), PartitionIndexError> {
+        // Events of a multi-event transaction only count once its commit record is in the log: a
+        // crash can leave the events of the last transaction without it, and those events were
+        // never acknowledged (readers skip them, so the indexes must too)
+        let mut pending: Vec<(PartitionId, u64, u64)> = Vec::new();
+        let mut pending_transaction_id = Uuid::nil();
         let mut reader_iter = reader.iter();
         while let Some(record) = reader_iter.next_record()? {
             match record {
@@ -137,11 +144,27 @@ impl OpenPartitionIndex {
                     offset,
                     partition_id,
                     partition_sequence,
+                    transaction_id,
                     ..
                 }) => {
-                    self.insert(partition_id, partition_sequence, offset)?;
+                    if get_uuid_flag(&transaction_id) {
+                        self.insert(partition_id, partition_sequence, offset)?;
+                    } else {
+                        if transaction_id != pending_transaction_id {
+                            pending.clear();
+                            pending_transaction_id = transaction_id;
+                        }
+                        pending.push((partition_id, partition_sequence, offset));
+                    }
                 }
-                Record::Commit(_) => {}
+                Record::Commit(commit) => {
+                    if commit.transaction_id == pending_transaction_id {
+                        for &(partition_id, partition_sequence, offset) in &pending {
+                            self.insert(partition_id, partition_sequence, offset)?;
+                        }
+                    }
+                    pending.clear();
+                }
             }
         }
 
